@@ -1,0 +1,13 @@
+//go:build verif
+
+package decimal
+
+// verifGobRoundTrip is a verification hook (build tag verif only): it composes GobEncode
+// and GobDecode into a zero-value receiver so that the round-trip property can be stated
+// as the contract of one function and checked against the contracts of the two methods.
+func verifGobRoundTrip(x *Decimal) (*Decimal, error) {
+	b, _ := x.GobEncode()
+	z := new(Decimal)
+	err := z.GobDecode(b)
+	return z, err
+}
